@@ -588,6 +588,22 @@ class UBXMessage:
 
         super().__setattr__(name, value)
 
+    def __delattr__(self, name):
+        """
+        Override delattr to make object immutable after instantiation.
+
+        :param str name: attribute name
+        :raises: UBXMessageError
+
+        """
+
+        if self._immutable:
+            raise UBXMessageError(
+                f"Object is immutable. Deletion of {name} not permitted after initialisation."
+            )
+
+        super().__delattr__(name)
+
     def serialize(self) -> bytes:
         """
         Serialize message.
